@@ -2,9 +2,11 @@
 SHA-256 (FIPS 180-4), executable, core Lean only.
 
 Used by the models to recompute digests bit for bit (script hashes, annex hashes, proof hashes).
-No theorem unfolds `Sha256.hash`: property theorems hold for it as for an arbitrary function
-`List UInt8 → List UInt8`.  The implementation is tied to the real digests by the correspondence
-runs (every script, annex and proof hash the implementation reports is recomputed with it).
+No theorem evaluates `Sha256.hash`: property theorems hold for it as for an arbitrary function
+`List UInt8 → List UInt8` with 32-byte results (`Sha256Length.lean` proves the length from the shape
+of the result: eight state words of four bytes).  The implementation is tied to the real digests by
+the correspondence runs (every script, annex and proof hash and every digest jet the implementation
+reports is recomputed with it).
 -/
 namespace Sha256
 
